@@ -17,7 +17,15 @@ def regOp : P (RegOp Rat) := do
   | "bas" => do let b ← vec; pure (.baseline b)
   | "bga" => do let bg ← vec; let ab ← bool; let add ← bool; pure (.backgroundAdaptation bg ab add)
   | "sya" => do let x ← vec; let ab ← bool; let add ← bool; pure (.systemAdaptation x ab add)
-  | "tgt" => do let b ← mat; pure (.targets b)
+  | "tgt" => do
+      let b ← mat
+      -- weights: "none" | "vec <vec>" | "mat <mat>"
+      let w ← (do match (← tok) with
+        | "none" => pure none
+        | "vec" => do let v ← vec; pure (some (Weights.vec v))
+        | "mat" => do let m ← mat; pure (some (Weights.mat m))
+        | t => throw s!"bad weights `{t}`")
+      pure (.targets b w)
   | t => throw s!"bad registration op `{t}`"
 
 def showAdapt : Adapt Rat → String
@@ -33,6 +41,8 @@ def showAnswer : Answer Rat → String
   | .bools b => s!"bools {b.length} {" ".intercalate (b.map showBool)}"
   | .adapt k => s!"adapt {showAdapt k}"
   | .bounds lb ub => s!"bounds {showVec lb} {showUb ub}"
+  | .weights (.vec w) => s!"wvec {showVec w}"
+  | .weights (.mat m) => s!"wmat {showMat m}"
   | .notRegistered => "notreg"
 
 /-- digest of all closed-form queries on fixed probes -/
@@ -40,15 +50,15 @@ def digest (s : Est Rat) (px : List Rat) (psig : List (List Rat)) : String :=
   " ".intercalate [showAnswer (s.answer .getA), showAnswer (s.answer .getK), s!"base {showVec s.baseline}",
     showAnswer (s.answer .getBounds), showAnswer (s.answer (.systemCapture px)),
     showAnswer (s.answer (.systemRelativeCapture px)), showAnswer (s.answer (.relativeCapture psig)),
-    showAnswer (s.answer (.inSystem px))]
+    showAnswer (s.answer (.inSystem px)), showAnswer (s.answer .getTargets), showAnswer (s.answer .getWeights)]
 
 def ops14 : List (String × Handler) := [
-  -- hist <filters> <dom> <K> <baseline> <probe x> <probe signals> <nops> {op}  ->  per step: "ok <digest>" / "assert", separated by " ; "
+  -- hist <filters> <dom> <K> <baseline> <w> <probe x> <probe signals> <nops> {op}  ->  per step: "ok <digest>" / "assert", separated by " ; "
   ("hist", do
-    let f ← mat; let d ← dom; let k ← adapt; let b ← vec; let px ← vec; let ps ← mat
+    let f ← mat; let d ← dom; let k ← adapt; let b ← vec; let w ← vec; let px ← vec; let ps ← mat
     let n ← nat
     let ops ← many n regOp
-    let mut s := Est.init f d k b
+    let mut s := Est.init f d k b w
     let mut outs : Array String := #[s!"ok {digest s px ps}"]
     for op in ops do
       match s.register op with
